@@ -17,12 +17,22 @@ FramesOf(frameOf) == {frameOf[p] : p \in 1..Len(frameOf)}
 PktsOfF(frameOf, f) == {p \in 1..Len(frameOf) : frameOf[p] = f}
 CompleteF(frameOf, has, f) == PktsOfF(frameOf, f) \subseteq has
 MayF(frameOf, has) == {f \in FramesOf(frameOf) : CompleteF(frameOf, has, f)}
-FirstKFF(frameOf, kf, has) ==
-  LET ck == {f \in kf : CompleteF(frameOf, has, f)} IN IF ck = {} THEN 0 ELSE CHOOSE f \in ck : \A g \in ck : f <= g
+\* fw: the first packet ever written to the recorder (0: none).  What precedes it in the stream is, for the recorder, before
+\* the recording began: packets older than the first one it saw are late for its sample builder whenever they come.
+FirstPktF(frameOf, f) == CHOOSE p \in PktsOfF(frameOf, f) : \A q \in PktsOfF(frameOf, f) : p <= q
+FirstKFF(frameOf, kf, has, fw) ==
+  LET ck == {f \in kf : CompleteF(frameOf, has, f) /\ FirstPktF(frameOf, f) >= fw} IN IF ck = {} \/ fw = 0 THEN 0 ELSE CHOOSE f \in ck : \A g \in ck : f <= g
 \* R4: nothing lost for good => every complete frame from the first complete keyframe on
-MustF(frameOf, kf, has, lost) ==
-  LET k == FirstKFF(frameOf, kf, has) IN
+MustF(frameOf, kf, has, lost, fw) ==
+  LET k == FirstKFF(frameOf, kf, has, fw) IN
   IF lost \/ k = 0 THEN {} ELSE {f \in FramesOf(frameOf) : f >= k /\ CompleteF(frameOf, has, f)}
+
+\* the same, for a stream whose losses all precede some complete keyframe: seen from that keyframe on, every packet
+\* reaches the recorder (lostp: the packets lost for good)
+MustAfterF(frameOf, kf, has, lostp, fw) ==
+  LET ck == {f \in kf : CompleteF(frameOf, has, f) /\ FirstPktF(frameOf, f) >= fw /\ \A p \in lostp : p < FirstPktF(frameOf, f)}
+  IN IF ck = {} \/ fw = 0 THEN {}
+     ELSE LET k == CHOOSE f \in ck : \A g \in ck : f <= g IN {f \in FramesOf(frameOf) : f >= k /\ CompleteF(frameOf, has, f)}
 
 SetToSeq(S) == LET RECURSIVE F(_) F(T) == IF T = {} THEN <<>> ELSE LET m == CHOOSE x \in T : \A y \in T : x <= y IN <<m>> \o F(T \ {m}) IN F(S)
 =============================================================================
